@@ -685,6 +685,18 @@ func ReturnsIn(body ast.Node) []*ast.ReturnStmt {
 }
 
 // FuncLitsIn lists function literals directly inside n (not nested ones).
+// AllFuncLits returns every function literal inside n, nested ones included.
+func AllFuncLits(n ast.Node) []*ast.FuncLit {
+	var out []*ast.FuncLit
+	ast.Inspect(n, func(x ast.Node) bool {
+		if fl, ok := x.(*ast.FuncLit); ok {
+			out = append(out, fl)
+		}
+		return true
+	})
+	return out
+}
+
 func FuncLitsIn(n ast.Node) []*ast.FuncLit {
 	var out []*ast.FuncLit
 	ast.Inspect(n, func(x ast.Node) bool {
